@@ -46,3 +46,12 @@ for data in ([True, False], [True, True], [None, None]):
         print("D16c:", data, "ok")
     except Exception as e:  # noqa: BLE001
         print("D16c:", data, type(e).__name__, str(e)[:70].replace("\n", " "))
+
+
+# D22: inside a filter predicate the optimizer rewrites `e & ~e` to false also below xor / is_null, where null != false
+df = pl.DataFrame({"b": [None, True, False], "f": [0.0, 1.0, None]}, schema={"b": pl.Boolean, "f": pl.Float64})
+for name, e in {"(~b & b) ^ (f == f)": ((~pl.col("b")) & pl.col("b")) ^ (pl.col("f") == pl.col("f")),
+                "((f != f) & (f == f)).is_null()": ((pl.col("f") != pl.col("f")) & (pl.col("f") == pl.col("f"))).is_null()}.items():
+    a = df.lazy().filter(e).collect().rows()
+    b = df.lazy().filter(e).collect(optimizations=pl.QueryOptFlags.none()).rows()
+    print("D22:", name, "optimized:", a, "unoptimized:", b)
